@@ -212,7 +212,10 @@ func (p *Path) exec(th *Thread, fr *Frame, in ssa.Instruction) {
 	case *ssa.Jump:
 		p.jump(fr, fr.block.Succs[0])
 	case *ssa.If:
-		c := p.asTerm(p.get(fr, x.Cond))
+		c := p.simp(p.asTerm(p.get(fr, x.Cond)))
+		if !c.IsConst() && !noIfConv && p.tryIfConvert(fr, c) {
+			return
+		}
 		if !c.IsConst() {
 			if fr.loops == nil {
 				fr.loops = map[ssa.Instruction]int{}
@@ -364,7 +367,12 @@ func (p *Path) exec(th *Thread, fr *Frame, in ssa.Instruction) {
 			fr.ip++
 			return
 		}
-		panic(unsupportedf("slice to array pointer with offset"))
+		np := make([]pelem, len(sv.arr.path)+1)
+		copy(np, sv.arr.path)
+		np[len(sv.arr.path)] = pelem{i: sv.off, view: n}
+		p.set(fr, x, PtrV{id: sv.arr.id, path: np})
+		fr.ip++
+		return
 	case *ssa.TypeAssert:
 		p.execTypeAssert(th, fr, x)
 	case *ssa.MapUpdate:
